@@ -37,6 +37,7 @@ type RoundRec struct {
 	Panics     []string
 	Feats      map[string]int
 	BaseErr    int // baseline results that are errors / non-existent
+	Unfinalized []string `json:",omitempty"` // arcs not finalized after CompileString on a private copy (precondition of F11)
 	ElapsedMs  int64
 }
 
@@ -133,6 +134,7 @@ func runRound(k int, seed uint64, kind string) *RoundRec {
 		rec.Calls = append(rec.Calls, c.Desc)
 	}
 	rc := &roundCtx{rec: rec}
+	rec.Unfinalized = unfinalizedPaths(newEnv(p.Src).V)
 	base, unstable := baseline(p, calls, rec)
 	g := 2 + r.Intn(15)
 	rec.G = g
